@@ -18,6 +18,12 @@
       of length ≤ 3), scalar (all values), SWAP/CX, rebuilt controlled gate — the last one AS IT IS is
       correct iff the target's stored array is Hermitian and FAILS for S, T (finding F2, witnessed);
       with the proposed repair it holds for every table gate;
+    * square-root scalars `sqrt(z)` (value `z ** .5` given with the box): the dagger is `Scalar(conj(z ** .5))`
+      and evaluates to the conjugate for every non-real `z` and every `z ≥ 0` (`sqrt_dagger`); AS IT IS it
+      FAILS for negative real `z` (finding F4k, witnessed: `sqrt(-4)` is its own dagger), holds with the repair;
+    * calling conventions of `Circuit.eval` / `Sum.eval` on the numpy route: every circuit of a batch
+      `first.eval(c₁, …, cₖ)` is evaluated in the mode of its own `is_mixed` (a pure circuit by the tensor
+      functor whatever it is batched with), all in CQ mode under `mixed=True`, all terms of a sum in one mode;
     * kets and bras are the basis vectors (all bitstrings of length ≤ 3);
     * `rewire(op, a, b)` = "op on qubits a and b", refused iff a = b — all `a, b < 4`, generic op.
     * WHOLE CIRCUITS (Proofs/MatAlg.lean, CircuitAlg.lean, CircuitCyc8.lean, CircuitTables.lean):
@@ -31,7 +37,8 @@
           `circuit_eval_is_layers`): `circuit_unitary`, `circuit_dagger` for every well-typed circuit
           (`Circ.codFrom n c = some m`) over the gate set `unitaryGates` = GATES, rotations, Controlled(·),
           and all their daggers; rotations at EVERY integer phase index `n/8` (`n` even, any `n` for CU1);
-          kets/bras ≤ 4 bits and normalised scalars for the dagger; with kets the circuit is an isometry.
+          kets/bras ≤ 4 bits, normalised scalars and `sqrt(z)` boxes (`z` non-real or ≥ 0) for the dagger; with
+          kets the circuit is an isometry.
           Transport: `Cyc8.val : Cyc8 → ℚ(ζ₈)` is a homomorphism for the model's normalising
           operations and injective on normalised values (Proofs/Cyc8Ring.lean).
         - the typing hypothesis is necessary (`circuit_unitary_needs_typing`).
@@ -40,6 +47,7 @@
       there, `F2_witness`); kets/bras longer than 4 bits and `QuantumGate`s with arbitrary arrays inside
       whole circuits (the per-gate hypotheses `Gate.isoOK`/`dagOK` are decidable: `circuit_unitary_of`).
     * `rewire_spec` for a symbolic `op` and for more than 4 qubits.
+    * `sqrt_dagger_every_z` (negative real `z` included) — refuted for the code as it is (F4k).
 -/
 import Proofs.GatesTable
 import Proofs.GatesComplex
@@ -159,6 +167,57 @@ theorem dagger_flag_selfadjoint (g : QGate) (h : g.dg = none) (f : Bool) :
 theorem dagger_scalar (z : Cyc8) (f : Bool) :
     (Gate.scalar z).dagger.evalW f = dagger ((Gate.scalar z).evalW f) := scalar_dagger z f
 
+/-! ### square-root scalars (`sqrt(z)`, gates.py:567-575, 633-635) -/
+
+/-- **`sqrt_dagger`** — `eval (sqrt z).dagger = conj (eval (sqrt z))` for `z` given with its root `r = z ** .5`:
+    for every `z` that is not its own conjugate (every NON-REAL `z`) and for every `z` whose root is real
+    (`z ≥ 0`).  The dagger is `Scalar(conj(z ** .5))` — the conjugate of the root, not of the data.
+    (`_partial` in the sense of the header: negative real `z` is excluded, see `F4k_witness`.) -/
+theorem sqrt_dagger (z r : Cyc8) (f : Bool) (h : z.conj ≠ z ∨ r.conj = r) :
+    (Gate.sqrt z r).dagger.evalW f = dagger ((Gate.sqrt z r).evalW f) :=
+  h.elim (sqrt_dagger_nonreal z r f) (sqrt_dagger_real_root z r f)
+
+/-- The exact criterion for the code the switch `f4kFixed` selects: the dagger of `sqrt(z)` evaluates to
+    the conjugate iff the box is not taken for self-adjoint or its value is real. -/
+theorem sqrt_dagger_criterion (z r : Cyc8) (f : Bool) :
+    ((Gate.sqrt z r).dagger.evalW f = dagger ((Gate.sqrt z r).evalW f)) ↔
+      (sqrtSelfAdjoint z r = false ∨ r.conj = r) := sqrt_dagger_iff z r f
+
+/-- F4k witness: `sqrt(-4)` — value `2i`, an exact root — is taken for self-adjoint by gates.py:524 (the test
+    is made on the data `-4`), so AS IT IS its dagger evaluates to `2i ≠ conj(2i)`; with the proposed repair
+    (test made on the value) it evaluates to `-2i`. -/
+theorem F4k_witness :
+    Gate.sqrtExact (.sqrt (Cyc8.ofInt (-4)) ⟨0, 0, 2, 0, 0⟩) = true ∧
+    sqrtSelfAdjointW false (Cyc8.ofInt (-4)) ⟨0, 0, 2, 0, 0⟩ = true ∧
+    (sqrtDaggerW false (Cyc8.ofInt (-4)) ⟨0, 0, 2, 0, 0⟩).evalW true ≠
+      dagger ((Gate.sqrt (Cyc8.ofInt (-4)) ⟨0, 0, 2, 0, 0⟩).evalW true) ∧
+    (sqrtDaggerW true (Cyc8.ofInt (-4)) ⟨0, 0, 2, 0, 0⟩).evalW true =
+      dagger ((Gate.sqrt (Cyc8.ofInt (-4)) ⟨0, 0, 2, 0, 0⟩).evalW true) := F4k_sqrt_negative
+
+/-- With the proposed repair of F4k the statement holds for EVERY `z` and root. -/
+theorem sqrt_dagger_repaired (z r : Cyc8) (f : Bool) :
+    (sqrtDaggerW true z r).evalW f = dagger ((Gate.sqrt z r).evalW f) := sqrt_dagger_fixed z r f
+
+/-! ### calling conventions of `Circuit.eval` on the numpy route (circuit.py:244-253, 657-664) -/
+
+/-- **A pure circuit is evaluated by the tensor functor — to the Tensor of `evalCirc` — whatever it is batched
+    with**: in `first.eval(c₁, …, cₖ)` (no `mixed=True`) the `i`-th circuit of `(first, c₁, …, cₖ)` is evaluated
+    in the mode given by ITS OWN `is_mixed`; the batch returns one result per circuit. -/
+theorem eval_batch_own_mode (selfMixed : Bool) (others : List Bool) (i : Nat) (m : Bool)
+    (h : (selfMixed :: others)[i]? = some m) :
+    (evalModes false selfMixed others)[i]? = some m ∧
+    (evalModes false selfMixed others).length = others.length + 1 :=
+  ⟨evalModes_own selfMixed others i m h, evalModes_length false selfMixed others⟩
+
+/-- With `mixed=True` every circuit of the call is evaluated as a CQ map. -/
+theorem eval_batch_mixed_flag (selfMixed : Bool) (others : List Bool) :
+    ∀ m ∈ evalModes true selfMixed others, m = true := evalModes_flag selfMixed others
+
+/-- `Sum.eval`: all terms are evaluated in ONE mode (so that they can be added) — the pure one iff the flag is
+    off and no term is mixed: a sum of pure circuits adds up their Tensors. -/
+theorem sum_eval_modes (flag : Bool) (terms ms : List Bool) (h : sumModes flag terms = some ms) :
+    ms.length = terms.length ∧ ∀ m ∈ ms, m = (flag || terms.any id) := sumModes_uniform flag terms ms h
+
 /-- Rebuilt controlled gate (gates.py:286) AS IT IS: correct iff the target's stored array is
     Hermitian — `_partial`: it is NOT correct for every gate (F2). -/
 theorem dagger_controlled_partial :
@@ -254,8 +313,10 @@ theorem gate_set_ok :
     (∀ g ∈ unitaryGates, g.isoOK = true ∧ g.coisoOK = true ∧ g.dagOK = true) ∧
     (∀ g ∈ unitaryGatesF2, g.isoOK = true ∧ g.coisoOK = true ∧ (f2Fixed = true → g.dagOK = true)) ∧
     (∀ g ∈ ketGates, g.isoOK = true ∧ g.dagOK = true) ∧ (∀ g ∈ braGates, g.coisoOK = true ∧ g.dagOK = true) ∧
-    (∀ z : Cyc8, z.isNormal = true → (Gate.scalar z).dagOK = true) :=
-  ⟨unitaryGates_ok, unitaryGatesF2_ok, ketBra_ok.1, ketBra_ok.2, scalar_dagOK⟩
+    (∀ z : Cyc8, z.isNormal = true → (Gate.scalar z).dagOK = true) ∧
+    (∀ z r : Cyc8, r.isNormal = true → (sqrtSelfAdjoint z r = false ∨ r.conj = r) →
+      (Gate.sqrt z r).dagOK = true) :=
+  ⟨unitaryGates_ok, unitaryGatesF2_ok, ketBra_ok.1, ketBra_ok.2, scalar_dagOK, sqrt_dagOK⟩
 
 /-- … and for rotations at EVERY integer phase index (`n` even unless CU1), by `ζ⁸ = 1`. -/
 theorem rot_every_phase_index (k : RotKind) (n : Int) (h : k = .CU1 ∨ n % 2 = 0) :
@@ -281,8 +342,8 @@ theorem circuit_isometry_with_kets (n m : Nat) (c : Circ) (ht : Circ.codFrom n c
     (hg : ∀ x ∈ c, x.2.1.inUnitarySet ∨ x.2.1 ∈ ketGates) :
     mul (evalCirc n c) (dagger (evalCirc n c)) = idQ n := circuit_isometry_cyc8 n m c ht hg
 
-/-- **Whole circuits: the dagger evaluates to the conjugate transpose** (kets, bras, scalars included;
-    `Controlled(S)`, `Controlled(T)` with F2 repaired). -/
+/-- **Whole circuits: the dagger evaluates to the conjugate transpose** (kets, bras, scalars and square-root
+    scalars `sqrt(z)` — `z` non-real or `≥ 0` — included; `Controlled(S)`, `Controlled(T)` with F2 repaired). -/
 theorem circuit_dagger (n m : Nat) (c : Circ) (ht : Circ.codFrom n c = some m)
     (hg : ∀ x ∈ c, x.2.1.inDaggerSet) :
     evalCirc m (Circ.dagger c) = dagger (evalCirc n c) := circuit_dagger_cyc8 n m c ht hg
@@ -298,6 +359,19 @@ theorem circuit_unitary_needs_typing :
   Gates.circuit_unitary_needs_typing
 
 /-! ### full statements that are NOT proved (decided by correspondence + oracle on every run) -/
+
+/-- `sqrt(z).dagger()` evaluates to the conjugate for EVERY `z` given with an exact root — FALSE for the code
+    as it is at negative real `z` (`F4k_witness`; `sqrt_dagger_every_z_fails_asis`), true with the repair
+    (`sqrt_dagger_repaired`). -/
+def sqrt_dagger_every_z : Prop :=
+  ∀ (z r : Cyc8) (f : Bool), Gate.sqrtExact (.sqrt z r) = true →
+    (Gate.sqrt z r).dagger.evalW f = dagger ((Gate.sqrt z r).evalW f)
+
+theorem sqrt_dagger_every_z_fails_asis (h : f4kFixed = false) : ¬ sqrt_dagger_every_z := by
+  intro hall
+  have h1 := hall (Cyc8.ofInt (-4)) ⟨0, 0, 2, 0, 0⟩ true F4k_sqrt_negative.1
+  simp only [Gate.dagger, h] at h1
+  exact F4k_sqrt_negative.2.2.1 h1
 
 /-- `rewire` for every 4 × 4 `op` and every `(a, b)`. -/
 def rewire_spec : Prop :=
@@ -326,6 +400,26 @@ example : ∀ x ∈ c0, x.2.1.inUnitarySet ∧ x.2.1.inDaggerSet := by
   · exact ⟨.inl (by simp [unitaryGates, unitaryBase, tableGates, named, Gate.dagger]),
            .inl (by simp [unitaryGates, unitaryBase, tableGates, named, Gate.dagger])⟩
 example : evalCirc 2 c0 ≠ idQ 2 := by decide
+/-- A circuit with scalar boxes of both classes at non-real and negative data meeting the hypotheses of
+    `circuit_dagger`: `sqrt(2i)` (value `1 + i`), `scalar(-1)`, `sqrt(-3 + 4i)` (value `1 + 2i`), `sqrt(2)`. -/
+def c1 : Circ := [(0, .ket [true], 0), (1, .sqrt ⟨0, 0, 2, 0, 0⟩ ⟨1, 0, 1, 0, 0⟩, 0), (0, .q gH, 0),
+  (0, .scalar (Cyc8.ofInt (-1)), 1), (0, .sqrt ⟨-3, 0, 4, 0, 0⟩ ⟨1, 0, 2, 0, 0⟩, 1), (1, .sqrt (Cyc8.ofInt 2) Cyc8.sqrt2, 0)]
+example : Circ.codFrom 0 c1 = some 1 := by decide
+example : ∀ x ∈ c1, x.2.1.inDaggerSet := by
+  intro x hx
+  simp only [c1, List.mem_cons, List.not_mem_nil, or_false] at hx
+  rcases hx with rfl | rfl | rfl | rfl | rfl | rfl
+  · exact .inr (.inr (.inr (.inl (List.mem_map.2 ⟨[true], by decide, rfl⟩))))
+  · exact .inr (.inr (.inr (.inr (.inr (.inr ⟨_, _, rfl, by decide, .inl (by decide)⟩)))))
+  · exact .inl (by simp [unitaryGates, unitaryBase, tableGates, named])
+  · exact .inr (.inr (.inr (.inr (.inr (.inl ⟨_, rfl, by decide⟩)))))
+  · exact .inr (.inr (.inr (.inr (.inr (.inr ⟨_, _, rfl, by decide, .inl (by decide)⟩)))))
+  · exact .inr (.inr (.inr (.inr (.inr (.inr ⟨_, _, rfl, by decide, .inr (by decide)⟩)))))
+example : evalCirc 1 (Circ.dagger c1) = dagger (evalCirc 0 c1) ∧
+    evalCirc 0 c1 = [[⟨1, 0, -3, 0, 0⟩, ⟨-1, 0, 3, 0, 0⟩]] := by decide
+example : evalModes false true [false, true, false] = [true, false, true, false] ∧
+    sumModes false [false, false] = some [false, false] ∧ sumModes false [false, true] = some [true, true] := by
+  decide
 /-- The generic theorem at ℂ, every pair of real phases: `Rx(φ) ⊗ 1` then `CRz(ψ)` is unitary. -/
 example (φ ψ : ℝ) :
     mul (evalLayers 2 [(0, RxC φ, 1), (0, CRzC ψ, 0)]) (dagger (evalLayers 2 [(0, RxC φ, 1), (0, CRzC ψ, 0)]))
